@@ -45,12 +45,19 @@ def firstFilter : List Q → Option (Nat × Q × (Repo → Bool))
     | some p => some (0, c, p)
     | none => (firstFilter r).map fun x => (x.1 + 1, x.2)
 
-/-- the replacement of a filter child once every selected repository satisfies it; `none` = leave the query
-    (more than one branch entry; or, since the `fix:` commit, an empty branch name) -/
-def replacement : Q → Option Q
+/-- `headIsFirstBranch` for one repository: the first branch, and only the first, is named HEAD -/
+def headFirstB (r : Repo) : Bool := r.branches.head? == some HEAD && !(r.branches.drop 1).contains HEAD
+
+/-- the replacement of a filter child once every selected repository satisfies it; `none` = leave the query:
+    more than one branch entry; or (since the `fix:` commits) an empty branch name, or the branch `HEAD` when it is
+    not the first-and-only-so-named branch of every repository of the selected shards -/
+def replacement (filtered : List RShard) : Q → Option Q
   | .branchesRepos l =>
     match l with
-    | [br] => if br.1.isEmpty then none else some (.branch br.1 true)
+    | [br] =>
+      if br.1.isEmpty then none
+      else if br.1 == HEAD && !(filtered.all fun s => s.listed.all headFirstB) then none
+      else some (.branch br.1 true)
     | _ => none
   | _ => some (.const true)
 
@@ -62,7 +69,7 @@ def doSelectRepoSet (shards : List RShard) (cs : List Q) : List RShard × Q :=
     let fr := filterShards pred shards
     if fr.1.isEmpty then (fr.1, .and cs)
     else if !fr.2 then (fr.1, .and cs)
-    else match replacement c with
+    else match replacement fr.1 c with
       | none => (fr.1, .and cs)
       | some c' => (fr.1, simplify (.and (cs.set i c')))
 
